@@ -213,6 +213,32 @@ def pipeline(text):
     return out
 
 
+def env_menu():
+    """scripts whose evaluation or serialisation goes through process-wide settings of the libraries below (the warnings
+    machinery, NumPy's print options): observed through load and dumps only, and only compared BETWEEN processes"""
+    M = collections.OrderedDict()
+    M["out-of-domain"] = H + "\nfloat v = -0.25\nG(sqrt(v), log(-1.0), arccosh(0.5), arcsin(2.0), arctanh(-3.0), arccos(-1.5)) | 0\nH(k=sqrt(-4), l=[log(v)]) | 1\n"
+    M["computed-floats"] = H + "target g (w=0.1+0.2)\n\nint n = 3\nG(0.1+0.2, 1/3, sqrt(pi), 2*pi/n, k=exp(1)/7, l=[1/3, 0.1*3]) | 0\nfloat array A =\n    1/3, 0.1+0.2\ncomplex array U =\n    1/3+0.1j, 2j/7\nH(A, U, 1e-7/3, 1e22/7) | 1\n"
+    M["overflow"] = H + "\nfloat z = 0.0\nG(exp(1000), 2.0**2000, 1/z, log(z)) | 0\n"
+    M["long-array"] = H + "\nfloat array A =\n    " + ", ".join("1/%d" % k for k in range(3, 43)) + "\nint array B =\n    " + ", ".join(str(7 ** (k % 19)) for k in range(40)) + "\nG(A, k=B) | 0\n"
+    return M
+
+
+def env_pipeline(text):
+    out = {}
+    for s in ("load", "dumps"):
+        try:
+            out[s] = stage(s, text)
+        except Exception as e:  # noqa
+            out[s] = "EXC:" + type(e).__name__ + ":" + str(e)[:100]
+    return out
+
+
+def process_setting(seed):
+    """what a process does to the libraries below before it starts (by position in the seed cover)"""
+    return {2: "warnings-default", 4: "numpy-legacy-print", 6: "numpy-short-print+warnings-always"}.get(seed % 7, "")
+
+
 def _explore_script(task):
     sched.install()
     key, text = task
@@ -260,6 +286,16 @@ import blackbird          # imported while the process is still where it was sta
 M = c19.menu(%(d)r)
 FM = c19.file_menu(%(d)r)
 os.chdir(%(cwd)r)
+setting = c19.process_setting(%(seed)d)
+import numpy
+if setting == "warnings-default":
+    warnings.simplefilter('default')
+elif setting == "numpy-legacy-print":
+    numpy.set_printoptions(legacy='1.13')
+elif setting:
+    numpy.set_printoptions(precision=3, suppress=True, threshold=5, linewidth=30)
+    warnings.simplefilter('always')
+    sys.stderr = open(os.devnull, "w")
 orders = {}
 for g in c19.GROUPS:
     orders["str:" + ",".join(g)] = list(set(g))
@@ -274,6 +310,8 @@ for k, text in items[rot:] + items[:rot]:
         out[k] = json.dumps(c19.pipeline(text), sort_keys=True)
     except Exception as e:
         out[k] = "EXC:" + type(e).__name__ + ":" + str(e)[:100]
+for k, text in c19.env_menu().items():
+    out["env:" + k] = json.dumps(c19.env_pipeline(text), sort_keys=True)
 for k, path in FM.items():
     try:
         out["file:" + k] = json.dumps(c19.file_pipeline(path), sort_keys=True)
@@ -355,7 +393,8 @@ def run(ctx):
     cover_complete = all(len(seen[k]) >= need[k] for k in need)
     ref_seed = seeds[0]
     ncw = len(cwds(d))
-    for k in list(M) + ["file:" + f for f in FM] + ["file:loads-relative-include-after-chdir"]:
+    EM = env_menu()
+    for k in list(M) + ["env:" + e for e in EM] + ["file:" + f for f in FM] + ["file:loads-relative-include-after-chdir"]:
         outs = collections.defaultdict(list)
         for s in seeds:
             outs[runs[s]["obs"][k]].append(s)
@@ -365,8 +404,11 @@ def run(ctx):
             by_cwd = all(len({runs[s]["obs"][k] for s in seeds if s % ncw == c}) <= 1 for c in range(ncw))
             by_locale = len({runs[s]["obs"][k] for s in seeds if s % 7 == 1}) <= 1 and len({runs[s]["obs"][k] for s in seeds if s % 7 != 1}) <= 1
             by_flag = all(len({runs[s]["obs"][k] for s in seeds if pyflags(s) == fl}) <= 1 for fl in ([], ["-O"], ["-OO"]))
-            Vs.add("C19/working-directory-dependent" if by_cwd else "C19/interpreter-flag-dependent" if by_flag else "C19/locale-dependent" if by_locale else "C19/hash-seed-dependent", {"script": k, "text": M.get(k, k), "seeds": [s0[0], s1[0]]},
+            by_setting = all(len({runs[s]["obs"][k] for s in seeds if process_setting(s) == ps}) <= 1 for ps in ("", "warnings-default", "numpy-legacy-print", "numpy-short-print+warnings-always"))
+            Vs.add("C19/working-directory-dependent" if by_cwd else "C19/process-setting-dependent" if by_setting and not by_flag else "C19/interpreter-flag-dependent" if by_flag else "C19/locale-dependent" if by_locale else "C19/hash-seed-dependent", {"script": k, "text": M.get(k, EM.get(k[4:], k)), "seeds": [s0[0], s1[0]]},
                    "script %s: processes with PYTHONHASHSEED=%d (cwd #%d) and %d (cwd #%d) give different observations: %s" % (k, s0[0], s0[0] % ncw, s1[0], s1[0] % ncw, _first_diff(o0, o1).replace(d, "<D>")))
+        if k.startswith("env:"):
+            continue
         if k.startswith("file:"):
             o = runs[ref_seed]["obs"][k]
             if o.startswith("EXC:"):
@@ -390,11 +432,11 @@ def run(ctx):
     cov = {"states": len(M) * (len(STAGES) + 2), "transitions": schedules + len(seeds) * len(M), "traces_validated_against_impl": schedules + len(seeds) * len(M),
            "samples": [M[k] for k in list(M)[:3]],
            "schedules_in_process": schedules, "max_choice_points_per_stage": maxpts, "scripts": len(M), "stages": STAGES + ["gen2-load", "gen2-dumps"],
-           "hash_seeds_run": len(seeds), "seed_cover_complete": cover_complete, "working_directories": ncw, "file_scripts_with_relative_includes": len(FM),
+           "hash_seeds_run": len(seeds), "seed_cover_complete": cover_complete, "working_directories": ncw, "process_settings": ["(none)", "warnings-default", "numpy-legacy-print", "numpy-short-print+warnings-always"], "process_setting_scripts": len(EM), "file_scripts_with_relative_includes": len(FM),
            "iteration_orders_realised": {k: "%d/%d" % (len(seen[k]), need[k]) for k in need},
            "evaluations": schedules + len(seeds) * len(M), "distinct_nontrivial": len(M),
            "rule": "every script x stage under every combination of symbol-set iteration orders (in process), and the whole menu in one fresh interpreter per PYTHONHASHSEED of a seed cover realising all k! orders of every name group as str and as Symbol; "
-                   "the processes rotate over 5 working directories (two of them hold other files under the relative names the file scripts include) and each also repeats dumps / instantiation / load on the same objects",
+                   "the processes rotate over 5 working directories (two of them hold other files under the relative names the file scripts include) and each also repeats dumps / instantiation / load on the same objects; three of every seven processes first change a process-wide setting of the libraries below (warnings filter, NumPy print options), and %d scripts with out-of-domain function arguments, computed floats, overflowing values and long arrays are compared between all processes" % len(EM),
            "exhaustive": cover_complete}
     if not cover_complete:
         Vs.add("C19/seed-cover-incomplete", {"script": "-", "text": "", "seeds": seeds[:2]}, "seed cover incomplete after %d seeds: %r" % (len(seeds), cov["iteration_orders_realised"]))
